@@ -193,6 +193,26 @@ theorem copy_equiv (h : Heap) (U : Nat → Nat) (o : Nat) (ob : Obj)
   obtain ⟨v1, v2⟩ := sqfsCopy_view desc desc_wellformed k hb hbud hox (by omega) hsh.1 hsh.2.1 hsh.2.2 he'
   exact ⟨h', c, he, v1, v2⟩
 
+/-- `copy_same_buffer_sizes`: for the kinds whose hooks duplicate every buffer at its allocated size — required
+of kinds that, like the data reader, index their cached blocks up to `block_size` without recording the allocated
+size — every buffer slot of the copy is allocated exactly as large as the original's: an index that is in bounds
+for the original is in bounds for the copy (the current `data_reader_copy` violates this:
+`Sqfs.Witness.C19.dataReader_copy_overflows`). -/
+theorem copy_same_buffer_sizes (h : Heap) (U : Nat → Nat) (o : Nat) (ob : Obj)
+    (hb : Balanced h U) (hbud : h.budget = none) (hox : h.objs o = some ob)
+    (hdup : ∀ a ∈ (desc ob.kind).bufs, a = .dup) (hlen : ob.bufs.length ≤ (desc ob.kind).bufs.length) :
+    ∃ h' c oc, sqfsCopyTop desc h o = (h', some c) ∧ h'.objs c = some oc ∧
+      oc.bufs.map (slotCap h') = ob.bufs.map (slotCap h) := by
+  obtain ⟨h', c, he, _, _, _⟩ := copy_balanced h U o hb hbud (by simp [hox])
+  have hlt : o < h.nobj := hb.bound o (by simp [hox])
+  obtain ⟨k, hk⟩ : ∃ k, h.nobj = k + 1 := ⟨h.nobj - 1, by omega⟩
+  have he' : sqfsCopy desc (k + 1) h o = (h', some c) := by rw [← hk]; exact he
+  obtain ⟨oc, h1, h2⟩ := sqfsCopy_caps desc desc_wellformed k hb hbud hox (by omega) hdup hlen he'
+  exact ⟨h', c, oc, he, h1, h2⟩
+
+/-- the data reader (and the dir reader, xattr reader, file) are such kinds in the repaired descriptions -/
+example : ∀ k ∈ [Kind.dataReader, .dirReader, .xattrReader, .file], ∀ a ∈ (desc k).bufs, a = .dup := by decide
+
 /-- `copy_independent`: in a balanced heap — in particular after `copy_balanced` — the owned buffers of two
 different objects are disjoint, so any sequence of stores through the slots and internal pointers of one object
 leaves what the other can observe of its buffers unchanged (and the heap balanced). -/
